@@ -227,3 +227,111 @@ Example ex_dask_combination :
                [[Some 3%Z; Some 1%Z; None; Some 9%Z]; [None; None]; [Some (-2)%Z; Some 4%Z]]) =
   (Some (-2)%Z, Some 1%Z, Some 3%Z, Some 9%Z).
 Proof. vm_compute; reflexivity. Qed.
+
+(* ------------------------------------------------------------------ *)
+(* Binary64 (Model/PackFloat.v [f_total_bounds]: nan-skipping min / max folds on Coq's
+   primitive floats; Proofs/FloatBoundsCombine.v): the combination theorem for float64
+   VALUES.  min / max select (no rounding) and skip NaN, but +0.0 and -0.0 compare equal:
+   the combination holds up to the sign of a zero bound ([feq_mod_zero]: bitwise equal, or
+   both zeros, or both NaN), whatever the order in which the values are met.            *)
+(* ------------------------------------------------------------------ *)
+From Coq Require Import PrimFloat SpecFloat FloatOps Permutation.
+From SP Require Import Model.FloatData2Coord Model.PackFloat Proofs.FloatBoundsCombine.
+
+(* one column *)
+Theorem C13_f_nanmin_partition_independent : forall chunks : list (list float),
+  feq_mod_zero (f_nanmin (map f_nanmin chunks)) (f_nanmin (concat chunks)).
+Proof. exact f_nanmin_partition_independent. Qed.
+Print Assumptions C13_f_nanmin_partition_independent.
+
+Theorem C13_f_nanmax_partition_independent : forall chunks : list (list float),
+  feq_mod_zero (f_nanmax (map f_nanmax chunks)) (f_nanmax (concat chunks)).
+Proof. exact f_nanmax_partition_independent. Qed.
+Print Assumptions C13_f_nanmax_partition_independent.
+
+(* the values in any order, split in any two ways *)
+Theorem C13_f_nanmin_permutation_independent : forall chunks chunks' : list (list float),
+  Permutation (concat chunks) (concat chunks') ->
+  feq_mod_zero (f_nanmin (map f_nanmin chunks)) (f_nanmin (map f_nanmin chunks')).
+Proof. exact f_nanmin_permutation_independent. Qed.
+Print Assumptions C13_f_nanmin_permutation_independent.
+
+Theorem C13_f_nanmax_permutation_independent : forall chunks chunks' : list (list float),
+  Permutation (concat chunks) (concat chunks') ->
+  feq_mod_zero (f_nanmax (map f_nanmax chunks)) (f_nanmax (map f_nanmax chunks')).
+Proof. exact f_nanmax_permutation_independent. Qed.
+Print Assumptions C13_f_nanmax_permutation_independent.
+
+(* whatever the order of the reduction and the tie rule of an implementation of nanmin:
+   an answer that is NaN when there is no number and otherwise an element of the list
+   that no number of the list is below is [f_nanmin] up to the sign of a zero *)
+Theorem C13_f_nanmin_characterised : forall l m,
+  (all_nan l /\ is_nan m = true) \/
+  (is_nan m = false /\ In m l /\
+   forall x, In x l -> is_nan x = false -> (x <? m)%float = false) ->
+  feq_mod_zero m (f_nanmin l).
+Proof. exact f_nanmin_characterised. Qed.
+Print Assumptions C13_f_nanmin_characterised.
+
+Theorem C13_f_nanmax_characterised : forall l m,
+  (all_nan l /\ is_nan m = true) \/
+  (is_nan m = false /\ In m l /\
+   forall x, In x l -> is_nan x = false -> (m <? x)%float = false) ->
+  feq_mod_zero m (f_nanmax l).
+Proof. exact f_nanmax_characterised. Qed.
+Print Assumptions C13_f_nanmax_characterised.
+
+(* the four columns: total bounds of the concatenation = nan-combination of the pieces'
+   total bounds (pieces = the bounds rows of the partitions of a frame) *)
+Theorem C13_f_dask_combination : forall pieces : list (list frow),
+  frow_eq_mod_zero (f_total_bounds (map f_total_bounds pieces)) (f_total_bounds (concat pieces)).
+Proof. exact f_total_bounds_partition_independent. Qed.
+Print Assumptions C13_f_dask_combination.
+
+(* the model's folds scan from left to right and keep the running value on a tie ("first
+   best", associative): for CONSECUTIVE pieces the combination is bit for bit, zero signs
+   included; a zero sign can change only with the order in which the values are met *)
+Theorem C13_f_dask_combination_sequential : forall pieces : list (list frow),
+  f_total_bounds (map f_total_bounds pieces) = f_total_bounds (concat pieces).
+Proof. exact f_total_bounds_split_exact. Qed.
+Print Assumptions C13_f_dask_combination_sequential.
+
+(* non-vacuity: same rows met in another order: +0.0 / -0.0 as x0 (and as x1); a piece of
+   NaN rows only, an empty piece, NaN rows only *)
+Example ex_f_combination_zero_sign : ex_f_zero_sign_depends_on_order_stmt.
+Proof. exact ex_f_zero_sign_depends_on_order_holds. Qed.
+Example ex_f_combination_zero_sign_upper : ex_f_zero_sign_upper_stmt.
+Proof. exact ex_f_zero_sign_upper_holds. Qed.
+Example ex_f_combination_all_nan_piece : ex_f_all_nan_partition_stmt.
+Proof. exact ex_f_all_nan_partition_holds. Qed.
+
+(* ---- the numba kernel itself on binary64 (Model/FloatBounds.v: inf / -inf start, isfinite
+   filter, numba's min / max = keep the running value on a tie, NaN when nothing finite) ---- *)
+From SP Require Import Model.FloatBounds.
+
+(* float version of C13_dask_combination on the KERNEL: its answer on a concatenation of
+   coordinate lists (whole pairs each) is the nan-combination of its answers on the pieces
+   (pieces = elements of an array: total_bounds against bounds; or partitions of a frame).
+   Bit for bit - the kernel and the row-level folds scan in the same order - hence also up to
+   feq_mod_zero; for the pieces met in any other order: C13_f_nanmin_permutation_independent *)
+Theorem C13_f_kernel_dask_combination : forall pieces,
+  Forall (fun l => Nat.even (length l) = true) pieces ->
+  f_total_bounds_interleaved (concat pieces) =
+  f_total_bounds (map f_total_bounds_interleaved pieces).
+Proof. exact f_tbi_concat. Qed.
+Print Assumptions C13_f_kernel_dask_combination.
+
+(* the kernel is the four nan-skipping folds over the de-interleaved coordinates, a
+   non-finite coordinate read as NaN *)
+Theorem C13_f_kernel_is_folds : forall vs,
+  f_total_bounds_interleaved vs =
+  (f_nanmin (map f_clean (f_xs vs)), f_nanmin (map f_clean (f_ys vs)),
+   f_nanmax (map f_clean (f_xs vs)), f_nanmax (map f_clean (f_ys vs))).
+Proof. exact f_tbi_is_folds. Qed.
+Print Assumptions C13_f_kernel_is_folds.
+
+(* non-vacuity (the five inputs were run through the real total_bounds_interleaved: same
+   bits): the first zero met is kept as minimum and as maximum; +-inf and NaN skipped;
+   nothing finite / nothing at all: NaN *)
+Example ex_f_kernel : ex_f_kernel_stmt.
+Proof. exact ex_f_kernel_holds. Qed.
